@@ -100,8 +100,8 @@ def tline(kind, fmt, halign, ralign, vars_):
                                   ' '.join('%d %d %d %s' % (v['xt'], v['isrec'], len(v['dims']), ' '.join(str(d) for d in v['dims'])) for v in vars_))
 
 
-def lean_tline(fmt, begin_var, ralign, vars_):
-    return 'T %d %d 0 %d %d %s' % (fmt, begin_var, ralign, len(vars_),
+def lean_tline(fmt, begin_var, ralign, vars_, op='T'):
+    return '%s %d %d 0 %d %d %s' % (op, fmt, begin_var, ralign, len(vars_),
                                    ' '.join('%d %d %d %s' % (XSZ[v['xt']], v['isrec'], len(v['dims']), ' '.join(str(d) for d in v['dims'])) for v in vars_))
 
 
@@ -249,6 +249,20 @@ def run_check(tier, seed):
         if rc != 0 or len(co) < len(dlines) + len(clines):
             V.broken_tie('def harness crashed', 'rc=%s lines=%d/%d stderr=%s' % (rc, len(co), len(dlines) + len(clines), se[-400:]))
             return V.finish()
+        # which NC_begins does this tree have?  decided by the replay of the finding's witness (CDF-5, three
+        # variables of 2^62 bytes): the original code accepts it (model enddef), the repaired code returns
+        # NC_EVARSIZE (model enddefG).  Both variants have their theorems (accept_iff_rules + no_overflow_counterexample
+        # / _partial  resp.  accept_iff_rules_repaired + no_overflow_repaired).
+        wit = tline('T', 5, 512, 4, [mkvar(('2^62', BYTE, [2**62]), 0)] * 3)
+        variant, OP = 'original', 'T'
+        try:
+            mw = re.search(r' e=(-?\d+)', co[len(dlines) + clines.index(wit)])
+            if mw and int(mw.group(1)) == EVARSIZE:
+                variant, OP = 'repaired', 'G'
+        except (ValueError, IndexError):
+            pass
+        V.cov['NC_begins_variant'] = variant
+        log('[S4] NC_begins variant of this tree: %s' % variant)
         # the model needs to know which variables survive def_var to compute the header length:
         # a first driver pass yields dv (independent of begin_var), a second the layout
         pl = subprocess.run([drv], input='\n'.join(dlines + [lean_tline(c[0], 0, 4, c[3]) for c in cases]) + '\n',
@@ -265,7 +279,7 @@ def run_check(tier, seed):
         for c, sv in zip(cases, surv):
             ha = rndup(c[1], 4) if c[1] > 0 else 4
             bvs.append(rndup(hdr_len(c[0], sv, c[3]), ha) if sv else hdr_len(c[0], sv, c[3]))
-        pl = subprocess.run([drv], input='\n'.join(lean_tline(c[0], bv, rndup(c[2], 4), c[3]) for c, bv in zip(cases, bvs)) + '\n',
+        pl = subprocess.run([drv], input='\n'.join(lean_tline(c[0], bv, rndup(c[2], 4), c[3], OP) for c, bv in zip(cases, bvs)) + '\n',
                             stdout=subprocess.PIPE, stderr=subprocess.PIPE, text=True)
         lo2 = pl.stdout.split('\n')
         if len(lo2) < len(cases):
@@ -292,7 +306,7 @@ def run_check(tier, seed):
             n_def += 1
             r = co[len(dlines) + i]
             m = re.match(r'dd=(\S*) dv=(\S*) e=(-?\d+)(?: hs=(-?\d+) he=(-?\d+) b=(\S*) rs=(-?\d+) H=(\S*))?', r)
-            ml = re.match(r'dv=(\S+) e=(-?\d+) sr=(\d) br=(\d) b=(\S+) brec=(\S+) rs=(\S+) vs=(\S+) len=(\S+)', lo2[i])
+            ml = re.match(r'dv=(\S+) e=(-?\d+) sr=(\d) br=(\d) b=(\S+) brec=(\S+) rs=(\S+) er=(\d) vs=(\S+) len=(\S+)', lo2[i])
             if not m or not ml:
                 tie_diffs.append((line, r[:200], lo2[i][:200])); continue
             desc = dict(stream='def', fmt=fmt, halign=halign, ralign=ralign, vars=[(v['tag'], v['xt'], v['isrec'], v['dims']) for v in vs],
@@ -311,11 +325,18 @@ def run_check(tier, seed):
             if dvr != dvm:
                 prop_fail.append(('C18:def_var:codes', 'ncmpi_def_var returns %s, format rule says %s' % (dvr, dvm), desc)); continue
             sv = surv[i]
-            # property oracle: enddef succeeds exactly when the size rules hold, else NC_EVARSIZE
-            want_ok = (sr == 1 and br == 1)
+            # property oracle: enddef succeeds exactly when the size rules hold (per-variable sizes, CDF-1 begins,
+            # every offset representable in 63 bits), else NC_EVARSIZE
+            endrule = int(ml.group(8))
+            want_ok = (sr == 1 and br == 1 and endrule == 1)
             if (er == 0) != want_ok or er not in (0, EVARSIZE):
-                prop_fail.append(('C18:enddef:real=%d:rules=%d%d' % (er, sr, br),
-                                  'ncmpi_enddef returns %d, size rules %s, CDF-1 begin rule %s' % (er, 'hold' if sr else 'violated', 'holds' if br else 'violated'), desc))
+                if er == 0 and sr == 1 and br == 1 and endrule == 0:
+                    prop_fail.append((SIG_OVF, 'ncmpi_enddef returns NC_NOERR although the data section would end beyond 2^63-1; begins reported: %s' % m.group(6), desc))
+                    bump('def:offsets-beyond-2^63-accepted')
+                else:
+                    prop_fail.append(('C18:enddef:real=%d:rules=%d%d%d' % (er, sr, br, endrule),
+                                      'ncmpi_enddef returns %d, size rules %s, CDF-1 begin rule %s, 63-bit end rule %s' %
+                                      (er, 'hold' if sr else 'violated', 'holds' if br else 'violated', 'holds' if endrule else 'violated'), desc))
                 continue
             if er != em:
                 tie_diffs.append((line, 'enddef', er, em)); continue
@@ -327,17 +348,8 @@ def run_check(tier, seed):
             H = bytes.fromhex(m.group(8))
             bm = [int(x) for x in ml.group(5).split(',')] if ml.group(5) != '-' else []
             rs_m = int(ml.group(7))
-            vsm = [int(x) for x in ml.group(8).split(',')] if ml.group(8) != '-' else []
-            lens = [int(x) for x in ml.group(9).split(',')] if ml.group(9) != '-' else []
-            ends = [b + l for b, l in zip(bm, lens)]
-            if any(x >= 2**63 for x in bm + [rs_m]):
-                # accepted although a begin / the record size does not fit MPI_Offset and the 64-bit begin field
-                prop_fail.append((SIG_OVF, 'ncmpi_enddef returns NC_NOERR although a variable would begin at %d >= 2^63 (recsize %d); begins reported: %s' %
-                                  (max(bm), rs_m, br_real), desc))
-                bump('def:begin-overflow-accepted')
-                continue
-            if any(x >= 2**63 for x in ends):
-                bump('def:last-variable-ends-beyond-2^63')     # nothing stored or reported depends on it: compared as usual
+            vsm = [int(x) for x in ml.group(9).split(',')] if ml.group(9) != '-' else []
+            lens = [int(x) for x in ml.group(10).split(',')] if ml.group(10) != '-' else []
             # without fixed-size variables the reported header extent is the start of the record section
             he_want = bvs[i] if any(not v['isrec'] for v in sv) else int(ml.group(6))
             if sv and (hs != hdr_len(fmt, sv, vs) or he != he_want):
@@ -357,13 +369,13 @@ def run_check(tier, seed):
         n_sp, n_elem = 0, 0
         sp = gen_sparse(rng, tier)
         # model begins
-        spl = [lean_tline(s[0], rndup(hdr_len(s[0], s[3]), rndup(s[1], 4)), rndup(s[2], 4), s[3]) for s in sp]
+        spl = [lean_tline(s[0], rndup(hdr_len(s[0], s[3]), rndup(s[1], 4)), rndup(s[2], 4), s[3], OP) for s in sp]
         pl = subprocess.run([drv], input='\n'.join(spl) + '\n', stdout=subprocess.PIPE, stderr=subprocess.PIPE, text=True)
         lo3 = pl.stdout.split('\n')
         wl, wmeta, alines = [], [], []
         for si, s in enumerate(sp):
             fmt, halign, ralign, vs, mode, vi = s
-            ml = re.match(r'dv=(\S+) e=(-?\d+) sr=(\d) br=(\d) b=(\S+) brec=(\S+) rs=(\S+) vs=(\S+) len=(\S+)', lo3[si] if si < len(lo3) else '')
+            ml = re.match(r'dv=(\S+) e=(-?\d+) sr=(\d) br=(\d) b=(\S+) brec=(\S+) rs=(\S+) er=(\d) vs=(\S+) len=(\S+)', lo3[si] if si < len(lo3) else '')
             if not ml or int(ml.group(2)) != 0:
                 tie_diffs.append(('sparse scenario not accepted by the model', spl[si], lo3[si] if si < len(lo3) else '')); continue
             bm = [int(x) for x in ml.group(5).split(',')]
